@@ -5,7 +5,7 @@ CONSTANTS
   BatchN <- G_batch_N
   MaxQueue = 4
   BufCap = 1
-  SubIds = {1, 2}
+  SubIds = {1, 2, 101, 102}
   Dev = {}
   PeerMenu = {}
   MaxPeer = 0
